@@ -484,3 +484,33 @@ Proof.
   destruct (map snd (filter (fun p => compat (fst p)) (v1 ++ v2))),
            (map snd (filter (fun p => compat (fst p)) (v1' ++ v2'))); try contradiction; auto.
 Qed.
+
+(** * the classification on the CURRENT tree *)
+Definition class_is_relevant (c : class) : bool := match c with OrderRelevant _ _ => true | OrderIrrelevant _ _ => false end.
+
+(** backed by a theorem about a model function, or explicitly "by inspection" ([DebugNotRendered]) *)
+Definition class_justified (c : class) : bool :=
+  match c with
+  | OrderIrrelevant DebugNotRendered None => true          (* by inspection *)
+  | OrderIrrelevant DebugNotRendered (Some _) => false
+  | OrderIrrelevant NotAHashContainer _ => false           (* would need a reason of its own *)
+  | OrderIrrelevant _ (Some _) => true                     (* a model function with an order-independence theorem *)
+  | OrderIrrelevant _ None => false
+  | OrderRelevant _ _ => false
+  end.
+
+Definition classes_of (s : site) : list class := map snd (filter (fun p => site_eqb s (fst p)) modelled).
+
+Theorem current_sites_order_irrelevant_and_justified :
+  forall s, In s found_sites ->
+    classes_of s <> [] /\ forall c, In c (classes_of s) -> class_is_relevant c = false /\ class_justified c = true.
+Proof.
+  intros s Hs.
+  assert (H : forallb (fun s => negb (match classes_of s with [] => true | _ => false end) &&
+                                forallb (fun c => negb (class_is_relevant c) && class_justified c) (classes_of s))
+                      found_sites = true) by (vm_compute; reflexivity).
+  pose proof (forallb_In _ _ H s Hs) as E. apply andb_prop in E. destruct E as [E1 E2]. split.
+  - intros C. rewrite C in E1. discriminate.
+  - intros c Hc. pose proof (forallb_In _ _ E2 c Hc) as E. apply andb_prop in E. destruct E as [A B].
+    split; [apply negb_true_iff; exact A|exact B].
+Qed.
